@@ -76,6 +76,22 @@ def coverage_for(key):
         if ":cast#" in key:
             return thm("mk_span_id", "usize as u32: identity for offsets of sources shorter than 4 GiB")
         return unproved("not modelled")
+    if f.endswith("core/src/ast/compat.rs"):
+        if "for term::LabeledType::from_ast" in key:
+            return thm("no_panic_labeled_type", "the type of an annotation always has a position: the grammar sets it (WithPos) after fix_type_vars for let / inline / pattern / include annotations and before it for record fields, and every node rebuilt by fix_type_vars keeps the position of the node it replaces (build_fixed); tied by the annotation matrix of checks/c10_gen.py (every annotation position x type shape x identifier kind); types built elsewhere with Type::from are not annotations")
+        if "merge_fields:unreachable" in key:
+            return thm("no_panic_select_value", "same selection by priority as eval/merge.rs merge_fields (== / > / < of MergePriority are exhaustive)")
+        if "from_mainline" in key:
+            return unproved("runtime term -> AST conversion used by the REPL (:load, feature repl, not compiled into the harness): variants without an AST counterpart panic; property C12 owns the REPL (finding panic:load)")
+        if "for PrimOp::from" in key:
+            return unproved("runtime-only primops have no AST counterpart; only reached through from_mainline (REPL)")
+        if "FieldDef" in key:
+            return unproved("field paths produced by the parser are never empty (grammar fact, not modelled)")
+        if ":index#" in key:
+            return unproved("args[i] of a primop application: arity fixed by the grammar rule that built the node (not modelled)")
+        return unproved("not modelled")
+    if f.endswith("parser/src/uniterm.rs"):
+        return unproved("bound_vars.get(var).unwrap() right after bound_vars.insert(var): by inspection, environments never delete")
     if f.endswith("core/src/pretty.rs"):
         if "libcall" in key or "unwrap" in key:
             return thm("no_panic_pretty_print_cap_fixed", "char_indices().nth(max_width) is matched, not unwrapped, since 03ad279 (pretty_print_cap_panics: before that commit it panicked when bytes > max_width >= characters)")
@@ -151,7 +167,7 @@ From Coq Require Import List String Bool ZArith QArith.
 Import ListNotations.
 From NV Require Import Crash.Outcome Crash.NumOps Crash.NumOpsProofs Crash.Index Crash.IndexProofs
   Crash.Lexer Crash.LexerProofs Crash.Span Crash.SpanProofs Crash.NameReg Crash.NameRegProofs
-  Crash.Defects Crash.MergeDispatch Crash.MergeDispatchProofs Crash.TomlFloats Crash.TomlFloatsProofs Gen.PanicSites.
+  Crash.Defects Crash.MergeDispatch Crash.MergeDispatchProofs Crash.TomlFloats Crash.TomlFloatsProofs Crash.TypePos Crash.TypePosProofs Gen.PanicSites.
 Open Scope string_scope.
 
 Inductive coverage : Type :=
